@@ -490,3 +490,103 @@ pub fn c04(ctx: &Ctx, begin: &mut dyn FnMut(J)) -> Outcome {
     }
     out
 }
+
+/// C03, reopened readers under concurrency: "the answer is the same ... through a reopened reader".
+/// The real `Reopen` implementation (ReopenableFile on a file on disk) is what the tools use from
+/// several threads at once; every reopened reader must be independent of the others' seeks and reads.
+pub fn c03r(ctx: &Ctx, begin: &mut dyn FnMut(J)) -> Outcome {
+    let mut r = Rng::derive(ctx.seed, 0xC03A, ctx.case);
+    let mut case = gen_bw_case(
+        &mut r,
+        &BwGenCfg { allow_zero_len: false, huge_ok: false, small_slots: true, allow_unsorted_chroms: false, max_chroms: 3, force_exact: false },
+    );
+    case.opts.source = Source::Serial;
+    // enough blocks that queries take several seek+read pairs
+    for (c, vs) in case.input.iter_mut() {
+        let mut pos = vs.last().map(|v| v.end).unwrap_or(0);
+        while vs.len() < 400 && pos + 10 < c.size.max(6000) {
+            let len = r.range(1, 6) as u32;
+            vs.push(Value { start: pos, end: pos + len, value: gen_value(&mut r, true) });
+            pos += len + r.below(4) as u32;
+        }
+        c.size = c.size.max(pos + 10);
+    }
+    let nthreads = *r.pick(&[2usize, 4, 8]);
+    begin(J::obj().set("opts", case.opts.to_json()).set("threads", nthreads.into()).set("values_per_chrom", J::A(case.input.iter().map(|(_, v)| J::U(v.len() as u64)).collect())));
+    let mut out = Outcome::new();
+    out.hash = format!("{}:{}", case.hash, nthreads);
+    out.nontrivial = true;
+    let sink = MemSink::new();
+    if !matches!(wr::write_bw(sink.clone(), &case.input, &case.opts, Some(&ctx.scratch), &[]), CallResult::Ok) {
+        out.inconclusive = Some("blocked_by:C01 write failed".into());
+        return out;
+    }
+    let path = wr::scratch_file(&ctx.scratch, "bw");
+    if std::fs::write(&path, sink.bytes()).is_err() {
+        out.inconclusive = Some("HARNESS cannot write scratch file".into());
+        return out;
+    }
+    let input = Arc::new(case.input.clone());
+    let run = wr::guard(|| -> Result<Vec<String>, String> {
+        let base = BigWigRead::open_file(&path).map_err(|e| format!("open: {}", e))?;
+        let mut handles = vec![];
+        for t in 0..nthreads {
+            let seed = ctx.seed ^ (ctx.case * 1000 + t as u64);
+            let input = input.clone();
+            let plain = base.reopen().map_err(|e| format!("reopen: {}", e))?;
+            let use_cached = t % 2 == 1;
+            handles.push(std::thread::spawn(move || -> Vec<String> {
+                let mut r = Rng::new(seed);
+                let mut bad = vec![];
+                let mut plain = Some(plain);
+                let mut cached = if use_cached { Some(plain.take().unwrap().cached()) } else { None };
+                for _ in 0..150 {
+                    let ci = r.below(input.len() as u64) as usize;
+                    let (c, vs) = &input[ci];
+                    let a = r.below(c.size as u64 + 1) as u32;
+                    let b = (a + r.below(400) as u32).min(c.size);
+                    let got = std::panic::catch_unwind(std::panic::AssertUnwindSafe(|| match (&mut plain, &mut cached) {
+                        (Some(p), _) => collect_bw(p, &c.name, a, b),
+                        (_, Some(cd)) => collect_bw(cd, &c.name, a, b),
+                        _ => unreachable!(),
+                    }));
+                    match got {
+                        Ok(Ok(g)) => {
+                            if let Some((sig, _, _)) = judge_bw(vs, a, b, &g) {
+                                bad.push(format!("wrong_answer:{}", sig));
+                            }
+                        }
+                        Ok(Err(e)) => bad.push(format!("error:{}", wr::truncate(&e, 40))),
+                        Err(_) => bad.push("panic".to_string()),
+                    }
+                }
+                bad
+            }));
+        }
+        let mut all = vec![];
+        for h in handles {
+            all.extend(h.join().map_err(|_| "thread panicked outside the guarded call".to_string())?);
+        }
+        Ok(all)
+    });
+    let _ = std::fs::remove_file(&path);
+    let _ = wr::take_panics();
+    match run {
+        Ok(Ok(bad)) => {
+            out.count("concurrent_reopened_queries", (nthreads * 150) as u64);
+            if !bad.is_empty() {
+                let kind = if bad.iter().any(|b| b.starts_with("wrong_answer")) {
+                    "wrong_answer"
+                } else if bad.iter().any(|b| b == "panic") {
+                    "panic"
+                } else {
+                    "error"
+                };
+                out.viol("concurrent_reopened_readers_interfere", kind, J::obj().set("threads", nthreads.into()).set("bad_queries", bad.len().into()).set("examples", J::A(bad.iter().take(5).cloned().map(J::S).collect())));
+            }
+        }
+        Ok(Err(e)) => out.viol("read_failed", wr::truncate(&e, 60), J::s(e)),
+        Err(p) => out.viol("read_panicked", wr::panic_site(&p), J::A(p.into_iter().map(J::S).collect())),
+    }
+    out
+}
